@@ -69,6 +69,7 @@ type c07Table struct {
 	maxT     int
 	untamped []*c06Case
 	confCases []*c06Case   // server-configuration x probe-UID cases
+	liveCases []*c06Case   // a live session of the same (UID, sid) / an upload tick after the revocation
 	farOffs   map[int]bool // stamp offsets (ticks) beyond the edge classes
 }
 
@@ -77,6 +78,9 @@ func c07KeyOf(c *c06Case) string {
 	k := c07KeyC(c.Tr, c.Tampers, c.Off, c.UState, c.Served, c.Sid, c.RightKey, c.Cache)
 	if c.Probe != "" && c.Probe != "std" {
 		k += fmt.Sprintf("|probe-%s|admin-%v|nb-%d", c.Probe, c.Admin, c.NB)
+	}
+	if c.Tick {
+		k += "|tick"
 	}
 	return k
 }
@@ -104,6 +108,9 @@ func c07LoadTable(path string) (*c07Table, error) {
 		}
 		if !std {
 			tb.confCases = append(tb.confCases, &c)
+		}
+		if c.Cache == "same" || (c.Cache == "busy" && c.Tick) {
+			tb.liveCases = append(tb.liveCases, &c)
 		}
 		if !near {
 			tb.farOffs[c.Off] = true
@@ -1384,6 +1391,277 @@ func c07ConfCases(env *c07Env, id int, dir string, admin bool, nb int, cases []*
 	return nil
 }
 
+// ------------------------------------------------------------------------------------ part F: session state at arrival
+//
+// cache = same: a live session of the very (UID, session id) the packet names is registered (opened by a real client
+// with a served method); cache = busy + tick: a live session with another id.  Optionally the user's authorisation
+// is then withdrawn in the database (deleted / expired / credit 0) and one usage-upload round of the panel runs
+// (updateUsageQueue + commitUpdate, as the ticker does) with the user idle (no payload byte moved).  Then the packet
+// of the abstract case - unserved method, wrong server key, stamp on / outside the edge, any tamper class, or a plain
+// valid one - is shown to dispatchConnection.  Every class the statement excludes must still be refused; a revoked
+// user's join is tolerated only until the upload tick.
+
+// c07EditForClass finds an edit of base b that touches exactly the given tamper class.
+func c07EditForClass(b *c07Base, class string, rng *kit.Rng) (c07Edit, bool) {
+	tlsField := map[string][]string{"nonce": {"random-nonce"}, "randsig": {"random-rest"}, "blockA": {"session-id"}, "blockB": {"key-share"},
+		"len": {"record-header", "handshake-header", "sid-len", "extensions-len", "key-share-header", "version"}, "other": {"cipher-suites", "sni"}}
+	for tries := 0; tries < 4000; tries++ {
+		var e c07Edit
+		switch {
+		case b.lay.tls && class == "bit255":
+			e = c07Bit(b.lay.randOff+31, 7)
+		case b.lay.tls:
+			fs := tlsField[class]
+			if len(fs) == 0 {
+				return e, false
+			}
+			f, ok := b.lay.fields[fs[rng.Intn(len(fs))]]
+			if !ok || f[1] <= f[0] {
+				continue
+			}
+			e = c07Bit(f[0]+rng.Intn(f[1]-f[0]), rng.Intn(8))
+		case class == "other":
+			e = c07Bit(4+rng.Intn(b.lay.hidStart-16), rng.Intn(8))
+		case class == "b64":
+			pos := b.lay.hidStart + rng.Intn(b.lay.hidLen)
+			e = c07Edit{Pos: []int{pos}, Xor: []byte{b.pkt[pos] ^ '!'}}
+		default: // a decoded bit of the hidden value: flip it by replacing the base64 character
+			lo, hi := map[string][2]int{"nonce": {0, 96}, "randsig": {96, 255}, "bit255": {255, 256}, "blockA": {256, 512}, "blockB": {512, 768}}[class][0],
+				map[string][2]int{"nonce": {0, 96}, "randsig": {96, 255}, "bit255": {255, 256}, "blockA": {256, 512}, "blockB": {512, 768}}[class][1]
+			if hi == 0 {
+				return e, false
+			}
+			bit := lo + rng.Intn(hi-lo)
+			if class == "bit255" {
+				bit = 31*8 + 0 // byte 31, most significant bit: decoded bit index 248
+			}
+			pos := b.lay.hidStart + bit/6
+			v := strings.IndexByte(c07B64, b.pkt[pos])
+			if v < 0 {
+				continue
+			}
+			nv := v ^ (0x20 >> uint(bit%6))
+			e = c07Edit{Pos: []int{pos}, Xor: []byte{b.pkt[pos] ^ c07B64[nv]}}
+		}
+		if cl := b.lay.classes(b.pkt, e); len(cl) == 1 && cl[0] == class {
+			return e, true
+		}
+	}
+	return c07Edit{}, false
+}
+
+// presentKeep shows pkt to a new dispatchConnection without touching the panel; finish hangs up and waits.
+func (r *c06Rig) presentKeep(pkt []byte) (outcome, head string, finish func()) {
+	r.clearReplayCache()
+	r.takeRedirect()
+	link := r.vn.NewLink(false, false)
+	done := r.serve(link.End(1))
+	peer := link.End(0)
+	type rd struct {
+		b   []byte
+		err error
+	}
+	rch := make(chan rd, 1)
+	go func() {
+		buf := make([]byte, 2048)
+		n, err := peer.Read(buf)
+		rch <- rd{buf[:n], err}
+	}()
+	peer.SetReadDeadline(time.Now().Add(10 * time.Second))
+	peer.Write(c07Complete(pkt))
+	outcome = "silent"
+	classify := func(x rd) {
+		switch {
+		case len(x.b) > 0 && bytes.HasPrefix(x.b, []byte(c06RedirMarker)):
+			outcome = "redirect"
+		case len(x.b) > 0:
+			outcome = "reply"
+			h := x.b
+			if len(h) > 24 {
+				h = h[:24]
+			}
+			head = fmt.Sprintf("%q", h)
+		case errors.Is(x.err, os.ErrDeadlineExceeded):
+			outcome = "silent"
+		default:
+			outcome = "closed"
+		}
+	}
+	select {
+	case x := <-rch:
+		classify(x)
+	case <-done:
+		if r.takeRedirect() != nil {
+			peer.SetReadDeadline(time.Now().Add(5 * time.Second))
+		} else {
+			peer.SetReadDeadline(time.Now().Add(100 * time.Millisecond))
+		}
+		classify(<-rch)
+	}
+	return outcome, head, func() {
+		peer.Close()
+		r.waitDone(done, 3*time.Second)
+	}
+}
+
+func (r *c06Rig) c07Live(env *c07Env, exp *c06Case, sig string, n int, rng *kit.Rng) {
+	res := env.res
+	key := c07KeyOf(exp)
+	bad := func(format string, a ...any) {
+		res.Note("live %s: "+format, append([]any{key}, a...)...)
+		res.Stat("harness_errors", 1)
+	}
+	mgr := r.mgr
+	i64, i32 := usermanager.JustInt64, usermanager.JustInt32
+	label := "bypass:u1"
+	var uid []byte
+	if exp.UState == "bypass" {
+		if n%2 == 1 {
+			label = "bypass:u2"
+		}
+		uid = r.uids[label]
+	} else {
+		label = fmt.Sprintf("live:%d:%d", r.id, n)
+		uid = rng.Bytes(16)
+		r.uids[label] = uid
+		defer delete(r.uids, label)
+	}
+	// the connection that opens the session: authorised user, served method, right key, ordinary clock
+	c := *exp
+	c.Sig, c.Served, c.RightKey, c.Off, c.Tampers = sig, true, true, 0, nil
+	conc := r.concretise(&c, n, rng)
+	conc.Label, conc.OffNs = label, 0
+	conc.Sid = 0x7c080000 + c07NextSid.Add(2)
+	if exp.UState != "bypass" {
+		far := time.Unix(0, conc.ClientNs).Add(1000 * time.Hour).Unix()
+		if err := mgr.WriteUserInfo(usermanager.UserInfo{UID: uid, SessionsCap: i32(10), UpRate: i64(1 << 30), DownRate: i64(1 << 30),
+			UpCredit: i64(1 << 40), DownCredit: i64(1 << 40), ExpiryTime: i64(far)}); err != nil {
+			bad("seed: %v", err)
+			return
+		}
+		defer mgr.DeleteUser(uid)
+	}
+	defer r.purgeUsers()
+	remote, auth, err := r.clientSetup(&c, conc)
+	if err != nil {
+		bad("config: %v", err)
+		return
+	}
+	r.clearReplayCache()
+	cdn := strings.EqualFold(conc.Tr, "cdn")
+	link1 := r.vn.NewLink(false, false)
+	done1 := r.serve(r.serverConn(link1, cdn))
+	tr1 := remote.Transport.CreateTransport()
+	link1.End(0).SetReadDeadline(time.Now().Add(15 * time.Second))
+	_, herr := tr1.Handshake(link1.End(0), auth)
+	link1.End(0).SetReadDeadline(time.Time{})
+	close1 := func() {
+		func() {
+			defer func() { recover() }()
+			tr1.Close()
+		}()
+		link1.End(0).Close()
+		r.waitDone(done1, 3*time.Second)
+	}
+	defer close1()
+	if herr != nil || r.serverSession(uid, conc.Sid) == nil {
+		res.Stat("drift:live-first-connect-refused", 1)
+		res.Note("live %s: the opening connection of an authorised user was not accepted: %v", key, herr)
+		return
+	}
+	// the packet of the abstract case: same UID, same session id (cache = same) or a new one (busy)
+	c2 := *exp
+	c2.Sig, c2.Off, c2.Tampers = sig, 0, nil
+	conc2 := r.concretise(&c2, n, rng)
+	conc2.Label, conc2.OffNs, conc2.ClientNs, conc2.Sid = label, 0, conc.ClientNs, conc.Sid
+	if exp.Cache == "busy" {
+		conc2.Sid = conc.Sid + 1
+	}
+	pkt, auth2, err := r.captureFirstPacket(&c2, conc2)
+	if err != nil {
+		bad("capture: %v", err)
+		return
+	}
+	b := &c07Base{cs: &c2, conc: conc2, pkt: pkt, auth: auth2, stamp: time.Unix(0, conc2.ClientNs).UTC().Unix(), sealed: c07SealedOf(auth2)}
+	if pkt[0] == 0x16 {
+		b.lay, err = c07LocateTLS(pkt)
+	} else {
+		b.lay, err = c07LocateWS(pkt)
+	}
+	if err != nil {
+		bad("locator: %v", err)
+		return
+	}
+	what := "untouched"
+	for _, class := range exp.Tampers {
+		if class == "loworder" {
+			pkt, what, err = c07Forge(b, n, n%2 == 0)
+			if err != nil {
+				bad("forge: %v", err)
+				return
+			}
+			continue
+		}
+		e, ok := c07EditForClass(b, class, rng)
+		if !ok {
+			res.Stat("live_cases_without_edit:"+class, 1)
+			return
+		}
+		pkt, what = e.apply(pkt), fmt.Sprintf("edit %v (%s)", e, class)
+	}
+	// withdraw the authorisation through the manager the admin API uses
+	how := "still authorised"
+	switch exp.UState {
+	case "unknown":
+		err, how = mgr.DeleteUser(uid), "deleted"
+	case "expired":
+		err, how = mgr.WriteUserInfo(usermanager.UserInfo{UID: uid, ExpiryTime: i64(r.serverNow().Unix() - 3600)}), "expired"
+	case "nocredit":
+		if n%2 == 0 {
+			err, how = mgr.WriteUserInfo(usermanager.UserInfo{UID: uid, UpCredit: i64(0)}), "upload credit 0"
+		} else {
+			err, how = mgr.WriteUserInfo(usermanager.UserInfo{UID: uid, DownCredit: i64(0)}), "download credit 0"
+		}
+	}
+	if err != nil {
+		bad("revoke: %v", err)
+		return
+	}
+	if exp.Tick { // one round of the periodic usage upload; the user has moved no payload byte
+		r.sta.Panel.updateUsageQueue()
+		if err := r.sta.Panel.commitUpdate(); err != nil {
+			bad("commitUpdate: %v", err)
+			return
+		}
+	}
+	offs := c06OffsetChoices(exp.Off, exp.W)
+	r.setClock(b.stamp, offs[n%len(offs)])
+	outcome, head, finish := r.presentKeep(pkt)
+	defer finish()
+	res.Count("live|"+key, true)
+	res.Stat("live_session_presentations", 1)
+	res.Stat("live_outcome:"+exp.Verdict+":"+exp.Cache+":"+outcome, 1)
+	reason := c07Reason(exp)
+	suffix := ":session-live"
+	if exp.Cache == "busy" {
+		suffix = ":other-session-live"
+	}
+	if exp.Tick {
+		suffix += ":after-upload-tick"
+	}
+	switch {
+	case exp.Verdict == "must-redirect" && outcome == "reply":
+		res.Violate("accepted:"+reason+suffix,
+			fmt.Sprintf("the server answered %s to a %s first packet the statement excludes (%s) while a live session of the same UID with %s session id %#x was registered; user %s%s; method served %v, server key right %v, stamp offset class %d, packet %s",
+				head, exp.Tr, reason, map[string]string{"same": "the same", "busy": "another"}[exp.Cache], conc.Sid, how,
+				map[bool]string{true: ", one usage-upload round has run since (user idle)", false: ""}[exp.Tick], exp.Served, exp.RightKey, exp.Off, what),
+			map[string]any{"kind": "live", "abstract": exp, "sig": sig, "n": n, "outcome": outcome})
+	case exp.Verdict == "must-accept" && outcome != "reply":
+		res.Stat("drift:live-join-refused", 1)
+		res.Note("live %s: a valid packet joining the live session got %s", key, outcome)
+	}
+}
+
 // ------------------------------------------------------------------------------------ the test
 
 func TestVerifC07Replay(t *testing.T) {
@@ -1670,6 +1948,21 @@ func TestVerifC07Replay(t *testing.T) {
 			}
 		}
 	}
+	// ---- part F: a live session of the same (UID, sid) / an upload tick after the revocation
+	if len(tb.liveCases) == 0 {
+		t.Fatal("the table has no session-state cases")
+	}
+	for i, cs := range tb.liveCases {
+		if !thorough && len(cs.Tampers) > 0 && !(cs.UState == "bypass" || cs.UState == "dbok") {
+			continue // quick: tampered packets against the live sessions of authorised users only
+		}
+		cs, i := cs, i
+		sg := "chrome"
+		if cs.Tr == "direct" {
+			sg = sigs[i%3]
+		}
+		jobs <- func(r *c06Rig, rng *kit.Rng) { r.c07Live(env, cs, sg, i, rng) }
+	}
 	close(jobs)
 	wg.Wait()
 	res.Stat("abstract_cases", int64(len(tb.m)))
@@ -1716,13 +2009,16 @@ func c07ReplayFile(t *testing.T, path, dir string, tb *c07Table) {
 	res := kit.NewResult()
 	env := &c07Env{res: res, tb: tb}
 	rng := kit.NewRng(kit.Seed())
-	if rf.Replay.Kind == "client" || rf.Replay.Kind == "history" {
+	if rf.Replay.Kind == "client" || rf.Replay.Kind == "history" || rf.Replay.Kind == "live" {
 		rig, err := c06NewRig(0, rng, dir)
 		if err != nil {
 			t.Fatal(err)
 		}
 		defer rig.close()
-		if rf.Replay.Kind == "history" {
+		if rf.Replay.Kind == "live" {
+			rig.c07Live(env, &rf.Replay.Abstract, rf.Replay.Sig, rf.Replay.N, rng)
+			fmt.Printf("live session scenario %s: stats %v notes %v\n", c07KeyOf(&rf.Replay.Abstract), res.Stats, res.Notes)
+		} else if rf.Replay.Kind == "history" {
 			c07InstallGateHook()
 			defer verifhook.Set(nil)
 			rig.c07History(env, rf.Replay.Tr, rf.Replay.Sig, rf.Replay.After, rf.Replay.Cache, rf.Replay.N, rng)
